@@ -124,6 +124,40 @@ def run(res, a):
                               "line": "cr %s %s %s" % (shared.hex(), ",".join(evs) if evs else "-", ",".join(seq)),
                               "meta": {"plain": plain.hex(), "nframes": len(frames), "nseg": len(seg)}})
     core.run_correspondence(res, "conn", cases, me)
+    # full stack, implementation side: the keys of an encrypted connection are replaced (pair-verify again) while its read is
+    # waiting for the next bytes; everything sent before and after must arrive
+    import os
+    from . import stackcommon as sc
+    lines = ["sk tbl=%s N:h S:h:c0:ok N:v V:v:c0:ok G:v:2.9 V:v:c0:ok G:v:2.9,4.13 P:v:2.9:true:- V:v:c0:ok A:v G:v:2.9" % sc.table()] * (2 if quick else 8)
+    obs = core.shard_run(os.path.join(core.BUILD, "hcdrv"), "stack", ["rk%d %s" % (i, l) for i, l in enumerate(lines)])
+    bad = 0
+    for i, l in enumerate(lines):
+        o = obs.get("rk%d" % i, "NO-OUTPUT")
+        res.cases += 1
+        res.count("kind:rekey")
+        toks = o.split(" ")
+        if len(toks) != 9 or not all(t.startswith(("S=st2/st4/st6", "V=st2/st4[M2ok]", "G=200", "P=204", "A=200")) for t in toks):
+            bad += 1
+            res.violations.append(("rekey", {"property": ID, "family": "stack", "seed": res.seed, "case": l, "implementation_observed": o[:400],
+                                             "required": "after the keys of an encrypted connection were replaced (pair-verify again) a request sent under the new keys is not delivered to the accessory / not answered",
+                                             "failing_input_found": True, "replay": "python3 tools/check.py C07 --replay <this file>"}))
+    res.obligations.append(("implementation-side runs: keys replaced on an encrypted connection (pair-verify again)", bad == 0, "%d runs, %d failing" % (len(lines), bad)))
+    # ... and at the connection itself: the session is replaced while a Read is waiting on the socket, then bytes sealed under
+    # the new keys arrive
+    sw = ["crsw %s %s %s %s" % (rb(rng, 32).hex(), rb(rng, 32).hex(), rb(rng, a_).hex(), rb(rng, b_).hex()) for a_, b_ in [(5, 9), (1024, 3), (40, 2100)] * (1 if quick else 5)]
+    obs = core.shard_run(os.path.join(core.BUILD, "hcdrv"), "conn", ["sw%d %s" % (i, l) for i, l in enumerate(sw)])
+    bad = 0
+    for i, l in enumerate(sw):
+        o = obs.get("sw%d" % i, "NO-OUTPUT")
+        t = l.split(" ")
+        res.cases += 1
+        res.count("kind:session-switch-while-reading")
+        if o != "r1=%s r2=%s" % (t[3], t[4]):
+            bad += 1
+            res.violations.append(("switch", {"property": ID, "family": "conn", "seed": res.seed, "case": l, "implementation_observed": o[:300],
+                                              "required": "the session of the connection was replaced while a Read was waiting on the socket; the bytes the peer then sent under the new keys were not delivered (%s)" % o.split(" r2=")[-1][:40],
+                                              "failing_input_found": True, "replay": "python3 tools/check.py C07 --replay <this file>"}))
+    res.obligations.append(("implementation-side runs: session replaced while a Read waits on the socket", bad == 0, "%d runs, %d failing" % (len(sw), bad)))
 
 
 def shard_group(line):
